@@ -112,8 +112,9 @@ def value_class(v):
     if t == 'f':
         f = float(v[1])
         return 'float-nonfinite' if math.isinf(f) or math.isnan(f) else 'float'
-    return {'b': 'bool', 'D': 'decimal', 'd': 'date-aware' if ('+' in v[1][10:] or '-' in v[1][10:]) else 'date-naive',
-            'e': 'enum-literal'}[t]
+    if t == 'd':
+        return 'date-aware' if ('+' in v[1][10:] or '-' in v[1][10:]) else 'date-naive'
+    return {'b': 'bool', 'D': 'decimal', 'e': 'enum-literal'}[t]
 
 
 # ---------------------------------------------------------------- metamodel generator
